@@ -141,8 +141,8 @@ type Sim struct {
 	// ctxByDone / timerByChan: whose channel is this (race detector edges for receives, see simCtx.syncVar)
 	ctxByDone   map[uintptr]*simCtx
 	timerByChan map[uintptr]*Timer
-	closed map[uintptr]interface{}
-	timers []*simCtx // active deadline contexts
+	closed      map[uintptr]interface{}
+	timers      []*simCtx // active deadline contexts
 	// library timers (time.After / NewTimer / AfterFunc / NewTicker) on the simulated clock
 	ltimers []*Timer
 	tseq    int
@@ -195,20 +195,20 @@ func New(cfg Config) *Sim {
 		cfg.EOFReadCostMs = 500
 	}
 	s := &Sim{
-		cfg:        cfg,
-		back:       make(chan struct{}),
-		locks:      map[uintptr]*lockState{},
-		onces:      map[uintptr]*onceState{},
-		wgs:        map[uintptr]int{},
-		wgKeep:     map[uintptr]interface{}{},
+		cfg:         cfg,
+		back:        make(chan struct{}),
+		locks:       map[uintptr]*lockState{},
+		onces:       map[uintptr]*onceState{},
+		wgs:         map[uintptr]int{},
+		wgKeep:      map[uintptr]interface{}{},
 		ctxByDone:   map[uintptr]*simCtx{},
 		timerByChan: map[uintptr]*Timer{},
-		closed:     map[uintptr]interface{}{},
-		siteHits:   map[int]int{},
-		switchAt:   map[[2]int]int{},
-		faultFired: map[string]int{},
-		prio:       map[int]int{},
-		logHash:    1469598103934665603,
+		closed:      map[uintptr]interface{}{},
+		siteHits:    map[int]int{},
+		switchAt:    map[[2]int]int{},
+		faultFired:  map[string]int{},
+		prio:        map[int]int{},
+		logHash:     1469598103934665603,
 	}
 	s.rng.seed(cfg.Seed ^ 0x9e3779b97f4a7c15)
 	s.Net = newNet(s)
@@ -547,6 +547,12 @@ func (s *Sim) advanceClock() bool {
 		}
 		if t.state == stWaiting && t.req.kind == opRead && t.wakeAt > 0 {
 			consider(t.wakeAt)
+		}
+		if t.state == stWaiting && t.req.kind == opRead && t.req.conn.rdlSet {
+			consider(t.req.conn.rdl)
+		}
+		if t.state == stWaiting && t.req.kind == opWrite && t.req.conn.wdlSet {
+			consider(t.req.conn.wdl)
 		}
 	}
 	if next < 0 {
